@@ -107,6 +107,9 @@ def init_security(config: ConfigParser) -> None:
     if config.getboolean("pygopherd", "usechroot"):
         chroot_user = config.get("pygopherd", "root")
         os.chroot(chroot_user)
+        # chroot() does not move the working directory: without this it would
+        # stay outside the new root (and relative paths would still reach it).
+        os.chdir("/")
         logger.log(f"Chrooted to {chroot_user}")
         config.set("pygopherd", "root", "/")
 
